@@ -217,6 +217,7 @@ func renderWsRets(rets [][]string) string { return renderRets(rets) }
 func wsExplore(c *core.Ctx, sig string, cf wsConf, max int, judge func(run wsRun, replay map[string]interface{})) (int, bool) {
 	distinct := map[string]bool{}
 	n, ex := sched.Explore(max, func(choices []int) []int {
+		c.InFlight(map[string]interface{}{"configuration": cf.name, "programs": cf.modelProgs(), "peer": cf.modelScript(), "close_frame_write_ok": cf.cfok, "choices": fmt.Sprint(choices)})
 		run := runWs(cf, choices, false)
 		c.Eval()
 		tr := strings.Join(run.events, ";")
